@@ -282,6 +282,7 @@ def core : PBatch → Option (AFields × CFields)
   | .plain schema row => some (schema, row)
   | .wrapped none => none
   | .wrapped (some b) => core b
+  | .empty schema => some (schema, .nil)
 
 theorem parseIntBody_inRange (t : ITy) (neg : Bool) (body : BStr) (v : Int) (h : parseIntBody t neg body = .ok v) :
     t.InRange v := by
